@@ -25,6 +25,7 @@ package z80
 //@   layer P
 //@   requires vsGhostMem(cpu.Memory)
 //@   ensures [diff] vsStepDiff(cpu, old(cpu), g, old(g)) == 0
+//@   ensures [diffalt] vsStepDiffStmt(cpu, old(cpu), g, old(g)) == 0
 //@   modifies cpu.States, cpu.HALT, cpu.Interrupt, g.Mem, g.Rd, g.Wr, g.PIn, g.POut, g.Retn, g.Reti, g.Log, g.LogN
 
 //@ func (cpu *CPU) processInterrupt() (accepted bool)
@@ -33,6 +34,38 @@ package z80
 //@   requires cpu.Interrupt != nil
 //@   ensures [diff] vsIntDiff(cpu, old(cpu), g, old(g), accepted) == 0
 //@   modifies cpu.States, cpu.HALT, g.Mem, g.Rd, g.Wr, g.PIn, g.POut, g.Retn, g.Reti, g.Log, g.LogN
+
+// The mode-0 overlay memory.  Type invariant (established by newIm0data for
+// len(d) >= 1, which is the only way processInterrupt builds one):
+//   len(data) >= 1  &&  end == start + uint16(len(data)-1)
+// Under it Get/Set never index outside data, for every address, also when the
+// range wraps (then it is empty) or data is longer than 64 KiB.
+
+//@ func (im0 *im0data) Get(addr uint16) (v uint8)
+//@   props C06 C12
+//@   requires vsGhostMem(im0.base)
+//@   requires len(im0.data) >= 1 && im0.end == im0.start+uint16(len(im0.data)-1)
+//@   ensures v == vsIteU8(vsOvIn(im0.start, im0.end, addr), vsOvByte(im0.data, addr-im0.start), old(g.Mem)[addr])
+//@   ensures g.Rd == vsIte64k(vsOvIn(im0.start, im0.end, addr), old(g.Rd), vsBump64k(old(g.Rd), addr))
+//@   ensures g.Log == vsIteLog(vsOvIn(im0.start, im0.end, addr), old(g.Log), vsLogged(old(g.Log), old(g.LogN), vsRdCode(addr)))
+//@   ensures g.LogN == vsIteU8(vsOvIn(im0.start, im0.end, addr), old(g.LogN), old(g.LogN)+1)
+//@   modifies g.Rd, g.Log, g.LogN
+
+//@ func (im0 *im0data) Set(addr uint16, value uint8)
+//@   props C06 C12
+//@   requires vsGhostMem(im0.base)
+//@   ensures g.Mem == vsIte64k(vsOvIn(im0.start, im0.end, addr), old(g.Mem), vsStore(old(g.Mem), addr, value))
+//@   ensures g.Wr == vsIteWr(vsOvIn(im0.start, im0.end, addr), old(g.Wr), vsBumpWr(old(g.Wr), addr, value))
+//@   ensures g.Log == vsIteLog(vsOvIn(im0.start, im0.end, addr), old(g.Log), vsLogged(old(g.Log), old(g.LogN), vsWrCode(addr, value)))
+//@   ensures g.LogN == vsIteU8(vsOvIn(im0.start, im0.end, addr), old(g.LogN), old(g.LogN)+1)
+//@   modifies g.Mem, g.Wr, g.Log, g.LogN
+
+//@ func newIm0data(pc uint16, d []uint8, base Memory) (im0 *im0data)
+//@   props C06 C12
+//@   inline
+//@   requires len(d) >= 1
+//@   ensures im0 != nil && len(im0.data) >= 1 && im0.end == im0.start+uint16(len(im0.data)-1)
+//@   ensures im0.start == pc && len(im0.data) == len(d)
 
 // ---------------------------------------------------------------- pure helpers (cpu.go, z80.go)
 
